@@ -12,6 +12,7 @@ import (
 	"github.com/verily-src/fhirpath-go/fhirpath"
 	"github.com/verily-src/fhirpath-go/fhirpath/compopts"
 	"github.com/verily-src/fhirpath-go/fhirpath/evalopts"
+	"github.com/verily-src/fhirpath-go/fhirpath/internal/funcs"
 	"github.com/verily-src/fhirpath-go/fhirpath/system"
 	"github.com/verily-src/fhirpath-go/internal/fhir"
 	"google.golang.org/protobuf/proto"
@@ -611,13 +612,122 @@ func c17RunFn(ctx *Ctx, c c17FnCase) {
 
 func pickOneFixed(i int, xs []string) string { return xs[i%len(xs)] }
 
+// --- an unknown variable is an evaluation error wherever it is evaluated ----------------
+
+type c17UnkCase struct {
+	Tpl   []string `json:"tpl"`   // templates, innermost first; $X is the hole
+	Known bool     `json:"known"` // control: the variable is supplied, so nothing may fail on its account
+}
+
+// c17UnkTemplates: contexts that must evaluate the hole ($X) whatever its value is:
+// every operator on either side of a non-empty operand, the receiver and each argument of
+// every implemented table function (well-typed per M-FN), criteria over a non-empty
+// receiver, the taken branch of iif.
+var c17UnkTemplates = func() []string {
+	out := []string{"$X", "($X)", "-$X", "+$X", "$X[0]", "%ints[$X]", "$X is Integer", "$X as Integer", "$X.exists()",
+		"iif($X, 1, 2)", "iif(true, $X, 2)", "iif(false, 1, $X)", "%ints.where($X = 1)", "%ints.select($X)", "%ints.all($X = 1)", "%ints.exists($X = 1)",
+		"true and $X", "false or $X", "true implies $X", "true xor $X", "$X and true", "$X or false", "$X implies true", "$X xor true"}
+	for _, op := range []string{"+", "-", "*", "/", "div", "mod", "&", "=", "!=", "<", "<=", ">", ">=", "|", "in", "contains"} {
+		out = append(out, "$X "+op+" 1", "1 "+op+" $X")
+	}
+	ph := placeholderFuncs()
+	for _, f := range fnSpecs {
+		if ph[f.Name] || f.Name == "iif" {
+			continue
+		}
+		if _, ok := funcs.Clone()[f.Name]; !ok && f.Spec != "STU" {
+			continue
+		}
+		if f.Spec == "STU" {
+			continue
+		}
+		args := f.Args
+		if len(args) > f.Max {
+			args = args[:f.Max]
+		}
+		if f.Recv != "" {
+			out = append(out, "$X."+f.Name+"("+strings.Join(args, ", ")+")")
+		}
+		for i, k := range f.Kinds {
+			if i >= len(args) || k == "type" {
+				continue
+			}
+			a := append([]string{}, args...)
+			a[i] = "$X"
+			recv := f.Recv
+			if recv == "" {
+				recv = "%ints"
+			}
+			out = append(out, recv+"."+f.Name+"("+strings.Join(a, ", ")+")")
+		}
+	}
+	return out
+}()
+
+func c17EnumUnk(yield func(c17UnkCase)) {
+	for _, t := range c17UnkTemplates {
+		yield(c17UnkCase{Tpl: []string{t}})
+		yield(c17UnkCase{Tpl: []string{t}, Known: true})
+	}
+}
+
+func c17GenUnk(s Src) c17UnkCase {
+	c := c17UnkCase{Known: s.Prob(15)}
+	for i, n := 0, s.Range(2, 3); i < n; i++ {
+		c.Tpl = append(c.Tpl, pickOne(s, c17UnkTemplates))
+	}
+	return c
+}
+
+func c17RunUnk(ctx *Ctx, c c17UnkCase) {
+	src := "%nope"
+	for _, t := range c.Tpl {
+		src = strings.ReplaceAll(t, "$X", "("+src+")")
+	}
+	vars := fnVars()
+	if c.Known {
+		vars["nope"] = system.Integer(1)
+	}
+	out := evalWith(src, fixtureInput(fixturePatient()), vars)
+	ctx.Eval(fmt.Sprintf("%s|%v", src, c.Known), len(c.Tpl) > 1 || c.Tpl[0] != "$X", "stage:unknown-variable", fmt.Sprintf("depth:%d", len(c.Tpl)), fmt.Sprintf("known:%v", c.Known))
+	if out.Panic != "" {
+		ctx.Fail("unknown variable: panic "+out.Panic, src)
+		return
+	}
+	if out.CompileErr != nil {
+		ctx.Count("unknown_variable_template_does_not_compile")
+		return
+	}
+	if c.Known {
+		return // control runs only show the templates are otherwise evaluable (see class outcome)
+	}
+	if out.Err == nil {
+		ctx.Fail("unknown variable: an expression that must evaluate an unknown variable yields a value instead of an error (innermost context: "+c17UnkShape(c.Tpl[0])+")", fmt.Sprintf("%s → %s", src, renderColl(out.Coll)))
+	}
+}
+
+// c17UnkShape abstracts a template for the signature: function templates by name.
+func c17UnkShape(t string) string {
+	if i := strings.Index(t, "("); i > 0 && strings.Contains(t[:i], ".") {
+		head := t[:i]
+		fn := head[strings.LastIndex(head, ".")+1:]
+		if strings.HasPrefix(t, "$X.") {
+			return "receiver of " + fn + "()"
+		}
+		return "argument of " + fn + "()"
+	}
+	return t
+}
+
 func TestC17(t *testing.T) {
 	r := newRec("C17",
-		"evaluate-option cases: lists of 0..4 EnvVariable options (+ optionally OverrideTime) over {System value, element, resource, collection, empty collection, nested collection, duplicate name, predefined name context/ucum, unsupported Go int/string/struct/nil, unsupported value nested one and two levels inside collections, generated collection shapes (1..5 items per level, ≤ 3 levels, supported and unsupported items at any position)} in drawn order, with a program that references one of the variables at the root, inside select/where criteria, inside a custom-function argument, or %context/%ucum/%nope; instrumented custom functions count invocations and record input and arguments; an enumeration stage covers all orders of all lists of length ≤ 2 (quick) / ≤ 3 (thorough) over 12 option kinds.  compile-option cases: four well-typed functions plus 0..4 of {good 0/1/2-ary, proto-typed, wrong first parameter, wrong results, non-function, no parameters, variadic, built-in name, duplicate name} in rotated order × 15 call shapes (right/wrong argument types and counts, call sites at the root, in select, in where) × {returns collection, returns wrapped sentinel error, returns empty}.  non-trivial = ≥ 2 options with an invalid one among valid ones, or a variable referenced below the root, or a custom function call; distinct = FNV-64 of (options, program)",
+		"evaluate-option cases: lists of 0..4 EnvVariable options (+ optionally OverrideTime) over {System value, element, resource, collection, empty collection, nested collection, duplicate name, predefined name context/ucum, unsupported Go int/string/struct/nil, unsupported value nested one and two levels inside collections, generated collection shapes (1..5 items per level, ≤ 3 levels, supported and unsupported items at any position)} in drawn order, with a program that references one of the variables at the root, inside select/where criteria, inside a custom-function argument, or %context/%ucum/%nope; instrumented custom functions count invocations and record input and arguments; an enumeration stage covers all orders of all lists of length ≤ 2 (quick) / ≤ 3 (thorough) over 12 option kinds.  compile-option cases: four well-typed functions plus 0..4 of {good 0/1/2-ary, proto-typed, wrong first parameter, wrong results, non-function, no parameters, variadic, built-in name, duplicate name} in rotated order × 15 call shapes (right/wrong argument types and counts, call sites at the root, in select, in where) × {returns collection, returns wrapped sentinel error, returns empty}.  non-trivial = ≥ 2 options with an invalid one among valid ones, or a variable referenced below the root, or a custom function call; distinct = FNV-64 of (options, program).  Unknown-variable cases: %nope placed in every context that must evaluate it (either side of every operator, receiver and each argument of every implemented table function with well-typed other operands, criteria over a non-empty receiver, the taken iif branch), alone and nested 2..3 deep: Evaluate must return an error; the same programs with the variable supplied are control runs",
 		"nested collections as variable values and variadic functions are executed for totality only (the statement does not define them)")
 	runProperty(t, r,
 		Stage[c17EvalCase]{Name: "option-orders", Enum: c17EnumEval, Run: c17RunEval},
 		Stage[c17EvalCase]{Name: "variables", Gen: c17GenEval, Run: c17RunEval, N: pick(6000, 150000)},
 		Stage[c17FnCase]{Name: "functions", Gen: c17GenFn, Run: c17RunFn, N: pick(6000, 150000)},
+		Stage[c17UnkCase]{Name: "unknown-variable-contexts", Enum: c17EnumUnk, Run: c17RunUnk},
+		Stage[c17UnkCase]{Name: "unknown-variable-nested", Gen: c17GenUnk, Run: c17RunUnk, N: pick(3000, 60000)},
 	)
 }
